@@ -127,11 +127,19 @@ fn gen_ev(rng: &mut Rng, pool: &[i64]) -> Ev<i64> {
 /// Scripted time getter that records its `update` calls in an event log shared with the history.
 struct MyClock {
     out: TimeOutput<E>,
+    /// read-once: every reading after the first one (since it was scripted) returns this instead
+    then: Option<TimeOutput<E>>,
+    polled: SCell<bool>,
     events: Rc<RefCell<Vec<char>>>,
     upd_err: Option<u8>,
 }
 impl TimeGetter<E> for MyClock {
     fn get(&self) -> TimeOutput<E> {
+        if let Some(t) = self.then {
+            if self.polled.replace(true) {
+                return t;
+            }
+        }
         self.out
     }
 }
@@ -160,7 +168,12 @@ impl Ctl {
     /// make the real time getter produce `c` (`junk` is the payload of the underlying getter, irrelevant)
     fn apply(&self, c: &ClockOut, junk: i64) {
         match (self, c) {
-            (Ctl::Mine(m), _) => m.borrow_mut().out = c.map(Time),
+            (Ctl::Mine(m), _) => {
+                let mut m = m.borrow_mut();
+                m.out = c.map(Time);
+                m.then = None;
+                m.polled.set(false);
+            }
             (Ctl::T(t), Ok(x)) => *t.borrow_mut() = Time(*x),
             (Ctl::T(_), Err(_)) => unreachable!("the generator never scripts an error for a Time clock"),
             (Ctl::G(s), Ok(x)) => s.some(*x, junk),
@@ -176,8 +189,37 @@ impl Ctl {
         }
     }
 }
+impl Ctl {
+    /// a clock that is not idempotent between readings: the first reading gives `first`, later ones `then`
+    /// (only for the two scriptable kinds)
+    fn apply_once(&self, first: &ClockOut, then: &ClockOut, junk: i64) {
+        let as_out = |c: &ClockOut| -> Out<i64> {
+            match c {
+                Ok(x) => Ok(Some(Datum::new(Time(*x), junk))),
+                Err(Error::Other(e)) => Err(Error::Other(*e)),
+                Err(_) => {
+                    if junk & 1 == 0 {
+                        Ok(None)
+                    } else {
+                        Err(Error::FromNone)
+                    }
+                }
+            }
+        };
+        match self {
+            Ctl::Mine(m) => {
+                let mut m = m.borrow_mut();
+                m.out = first.map(Time);
+                m.then = Some(then.map(Time));
+                m.polled.set(false);
+            }
+            Ctl::G(s) => s.set_once(as_out(first), as_out(then)),
+            Ctl::T(_) => unreachable!("the generator never scripts a read-once Time clock"),
+        }
+    }
+}
 fn my_clock(events: &Rc<RefCell<Vec<char>>>) -> Rc<RefCell<MyClock>> {
-    rc(MyClock { out: Ok(Time(0)), events: events.clone(), upd_err: None })
+    rc(MyClock { out: Ok(Time(0)), then: None, polled: SCell::new(false), events: events.clone(), upd_err: None })
 }
 fn dyn_clock(kind: u8, events: &Rc<RefCell<Vec<char>>>) -> (Ctl, Reference<dyn TimeGetter<E>>) {
     match kind {
@@ -226,6 +268,9 @@ enum Op {
     UpdFollow(Option<u8>),
     SrcA(Ev<i64>),
     SrcB(Ev<i64>),
+    /// getter A (false) / B (true) becomes read-once: its first poll returns the first event, every
+    /// later poll the second (a mailbox emptied by reading, a FIFO handing out the next sample)
+    SrcOnce(bool, Ev<i64>, Ev<i64>),
     Clock(ClockOut),
     CgSet(i64),
     /// constant getter follows getter A (false) / B (true)
@@ -248,6 +293,8 @@ impl Op {
             Op::UpdFollow(Some(_)) => 9,
             Op::SrcA(e) => 10 + e.kind().min(2),
             Op::SrcB(e) => 13 + e.kind().min(2),
+            Op::SrcOnce(false, ..) => 22,
+            Op::SrcOnce(true, ..) => 23,
             // (the followed-getter category in the distinct key separates FromNone from Other)
             Op::Clock(Ok(_)) => 16,
             Op::Clock(Err(_)) => 17,
@@ -266,6 +313,7 @@ impl Op {
             Op::Update(_) => "update",
             Op::UpdFollow(_) => "update_following_data",
             Op::SrcA(_) | Op::SrcB(_) => "getter-change",
+            Op::SrcOnce(..) => "getter-change-read-once",
             Op::Clock(_) => "clock-change",
             Op::CgSet(_) => "cg-set",
             Op::CgFollow(_) => "cg-follow",
@@ -288,6 +336,11 @@ struct Model {
     fol: Option<Fol>,
     a: Ev<i64>,
     b: Ev<i64>,
+    /// read-once getters: what A / B return from their second poll on
+    a_then: Option<Ev<i64>>,
+    b_then: Option<Ev<i64>>,
+    /// (first, later) of the read-once getter consumed by the most recent poll
+    once_hit: Option<(Ev<i64>, Ev<i64>)>,
     clock: ClockOut,
     cg_val: i64,
     cg_last: Option<i64>,
@@ -320,11 +373,30 @@ impl Model {
             }
         }
     }
+    /// An update polls getter A / B: what the FIRST read returns decides the update (that value is the
+    /// getter's present value); a read-once getter has switched to its later output afterwards. (How
+    /// often the getter is polled is not promised and not checked.)
+    fn poll_src(&mut self, is_b: bool) -> Result<Option<i64>, Er> {
+        let (cur, then) = if is_b { (&mut self.b, &mut self.b_then) } else { (&mut self.a, &mut self.a_then) };
+        let first = *cur;
+        if let Some(t) = then.take() {
+            *cur = t;
+            self.once_hit = Some((first, t));
+        }
+        ev_val(&first)
+    }
     /// one following step; returns (result, category)
     fn follow_step(&mut self, reject: Option<u8>) -> (Result<(), Er>, &'static str) {
-        match self.fol {
+        self.once_hit = None;
+        let polled = match self.fol {
+            None => None,
+            Some(Fol::A) => Some(self.poll_src(false)),
+            Some(Fol::B) => Some(self.poll_src(true)),
+            Some(Fol::Cg) => Some(self.out(Fol::Cg)),
+        };
+        match polled {
             None => (Ok(()), "not-following"),
-            Some(g) => match self.out(g) {
+            Some(out) => match out {
                 Err(e) => (Err(e), if e == Error::FromNone { "getter-error-FromNone" } else { "getter-error" }),
                 Ok(None) => (Ok(()), "absent"),
                 Ok(Some(v)) => {
@@ -335,9 +407,10 @@ impl Model {
         }
     }
     fn cg_update(&mut self) -> (Result<(), Er>, &'static str) {
+        self.once_hit = None;
         match self.cg_fol {
             None => (Ok(()), "not-following"),
-            Some(is_b) => match ev_val(if is_b { &self.b } else { &self.a }) {
+            Some(is_b) => match self.poll_src(is_b) {
                 Err(e) => (Err(e), if e == Error::FromNone { "getter-error-FromNone" } else { "getter-error" }),
                 Ok(None) => (Ok(()), "absent"),
                 Ok(Some(v)) => {
@@ -349,8 +422,38 @@ impl Model {
         }
     }
 }
-fn gen_op(rng: &mut Rng, m: &Model, pool: &[i64], ctl: &Ctl) -> Op {
+/// (first poll, later polls) of a read-once getter: the two always differ
+fn gen_once_pair(rng: &mut Rng, pool: &[i64]) -> (Ev<i64>, Ev<i64>) {
+    let v1 = val(rng, pool);
+    let mut v2 = val(rng, pool);
+    if v2 == v1 {
+        v2 = v1.wrapping_add(1);
+    }
+    let (s1, s2) = (Ev::Some(free_stamp(rng), v1), Ev::Some(free_stamp(rng), v2));
+    let e = Ev::Err(*rng.pick(&[0u8, 1, 2]));
+    match rng.below(9) {
+        0..=2 => (s1, s2),
+        3 | 4 => (s1, Ev::None),
+        5 => (s1, e),
+        6 | 7 => (Ev::None, s2),
+        _ => (e, s2),
+    }
+}
+fn gen_op(rng: &mut Rng, m: &Model, pool: &[i64], ctl: &Ctl, pending: Option<bool>, follows_in_update: bool) -> Op {
     let reject = |rng: &mut Rng| if rng.chance(0.3) { Some(*rng.pick(&[7u8, 9u8])) } else { None };
+    // a getter that has just become read-once is usually polled next by whoever follows it
+    if let Some(is_b) = pending {
+        if rng.chance(0.75) {
+            let rec_f = m.fol == Some(if is_b { Fol::B } else { Fol::A });
+            let cg_f = m.cg_fol == Some(is_b);
+            if rec_f && (!cg_f || rng.chance(0.6)) {
+                return if follows_in_update && rng.chance(0.8) { Op::Update(reject(rng)) } else { Op::UpdFollow(reject(rng)) };
+            }
+            if cg_f {
+                return Op::CgUpdate;
+            }
+        }
+    }
     match rng.below(100) {
         0..=9 => Op::SetOk(val(rng, pool)),
         10..=17 => Op::SetFail(val(rng, pool), *rng.pick(&[7u8, 9u8])),
@@ -358,8 +461,18 @@ fn gen_op(rng: &mut Rng, m: &Model, pool: &[i64], ctl: &Ctl) -> Op {
         28..=31 => Op::Stop,
         32..=53 => Op::Update(reject(rng)),
         54..=59 => Op::UpdFollow(reject(rng)),
-        60..=67 => Op::SrcA(gen_ev(rng, pool)),
-        68..=73 => Op::SrcB(gen_ev(rng, pool)),
+        x @ 60..=73 => {
+            let is_b = x >= 68;
+            let followed = m.fol == Some(if is_b { Fol::B } else { Fol::A }) || m.cg_fol == Some(is_b);
+            if rng.chance(if followed { 0.45 } else { 0.1 }) {
+                let (f, t) = gen_once_pair(rng, pool);
+                Op::SrcOnce(is_b, f, t)
+            } else if is_b {
+                Op::SrcB(gen_ev(rng, pool))
+            } else {
+                Op::SrcA(gen_ev(rng, pool))
+            }
+        }
         74..=79 => {
             let c = if ctl.can_err() && rng.chance(0.35) {
                 Err(gen_err(rng))
@@ -402,6 +515,9 @@ fn seq_case(rep: &mut Report, seed: u64, case: u64) {
         fol: None,
         a: Ev::None,
         b: Ev::None,
+        a_then: None,
+        b_then: None,
+        once_hit: None,
         clock: Ok(t0),
         cg_val: v0,
         cg_last: None,
@@ -410,12 +526,15 @@ fn seq_case(rep: &mut Report, seed: u64, case: u64) {
     let n = if rng.chance(0.5) { 40 } else { rng.range_i64(1, 40) as usize };
     let mut ops: Vec<Op> = Vec::with_capacity(n);
     let mut prev = 255u8;
+    let mut pending: Option<bool> = None;
     rep.max("seq_len_max", n as f64);
     for step in 0..=n {
         // step 0 only observes the freshly constructed objects
         let mut opname = "construction";
         if step > 0 {
-            let op = gen_op(&mut rng, &m, &pool, &ctl);
+            let op = gen_op(&mut rng, &m, &pool, &ctl, pending, follows_in_update);
+            pending = if let Op::SrcOnce(is_b, ..) = &op { Some(*is_b) } else { None };
+            m.once_hit = None;
             ops.push(op.clone());
             opname = op.name();
             rep.tally(&format!("seq_op/{}", opname));
@@ -460,6 +579,10 @@ fn seq_case(rep: &mut Report, seed: u64, case: u64) {
                 }
                 Op::SrcB(e) => {
                     b.ev(e);
+                    Ok(())
+                }
+                Op::SrcOnce(is_b, f, t) => {
+                    (if *is_b { &b } else { &a }).set_once(f.out(), t.out());
                     Ok(())
                 }
                 Op::Clock(c) => {
@@ -515,10 +638,22 @@ fn seq_case(rep: &mut Report, seed: u64, case: u64) {
                 }
                 Op::SrcA(e) => {
                     m.a = *e;
+                    m.a_then = None;
                     Ok(())
                 }
                 Op::SrcB(e) => {
                     m.b = *e;
+                    m.b_then = None;
+                    Ok(())
+                }
+                Op::SrcOnce(is_b, f, t) => {
+                    if *is_b {
+                        m.b = *f;
+                        m.b_then = Some(*t);
+                    } else {
+                        m.a = *f;
+                        m.a_then = Some(*t);
+                    }
                     Ok(())
                 }
                 Op::Clock(c) => {
@@ -544,6 +679,17 @@ fn seq_case(rep: &mut Report, seed: u64, case: u64) {
                     res
                 }
             };
+            // a read-once getter was consumed by this update: its first read decided the update
+            let once_key = m.once_hit.map(|(f, t)| (f.kind(), t.kind()));
+            if let Some((f, t)) = &m.once_hit {
+                let c = |e: &Ev<i64>| match e {
+                    Ev::Some(..) => "some",
+                    Ev::None => "none",
+                    Ev::Err(_) => "err",
+                };
+                rep.tally("seq_read_once_polled");
+                rep.tally(&format!("seq_read_once_polled/{}-then-{}", c(f), c(t)));
+            }
             let fol_cat = match m.fol {
                 None => 9u8,
                 Some(g) => match m.out(g) {
@@ -553,7 +699,7 @@ fn seq_case(rep: &mut Report, seed: u64, case: u64) {
                     Err(_) => 2,
                 },
             };
-            rep.distinct(("seq", prev, op.code(), m.fol, fol_cat, follows_in_update));
+            rep.distinct(("seq", prev, op.code(), m.fol, fol_cat, follows_in_update, once_key));
             prev = op.code();
             rep.eval();
             if got != exp {
@@ -651,6 +797,8 @@ fn build<'a, TG: TimeGetter<E>>(ctor: u8, h: &'a mut Hist, tg: Reference<TG>, ar
 enum HOp {
     Get,
     Clock(ClockOut),
+    /// the clock is not idempotent between readings: first reading, later readings
+    ClockOnce(ClockOut, ClockOut),
     SetDelta(i64),
     SetTime(i64),
     /// update with scripted errors of the history / of the time getter
@@ -668,12 +816,15 @@ impl HOp {
             HOp::Update(None, None) => 5,
             HOp::Update(..) => 6,
             HOp::Mode(_) => 7,
+            HOp::ClockOnce(Ok(_), _) => 8,
+            HOp::ClockOnce(Err(_), _) => 9,
         }
     }
     fn name(&self) -> &'static str {
         match self {
             HOp::Get => "get",
             HOp::Clock(_) => "clock-change",
+            HOp::ClockOnce(..) => "clock-change-read-once",
             HOp::SetDelta(_) => "set_delta",
             HOp::SetTime(_) => "set_time",
             HOp::Update(..) => "update",
@@ -779,10 +930,27 @@ fn hist_case<TG: TimeGetter<E>>(rep: &mut Report, case: u64, rng: &mut Rng, tg: 
     let mut prev = 255u8;
     for step in 0..=n {
         let mut opname = "construction";
+        let mut after_get: Option<ClockOut> = None;
         if step > 0 {
             let op = match rng.below(100) {
                 0..=14 => HOp::Get,
-                15..=44 => HOp::Clock(gen_hclock(rng, &ctl, last_ok, offset)),
+                15..=44 => {
+                    let c = gen_hclock(rng, &ctl, last_ok, offset);
+                    if ctl.can_err() && rng.chance(0.2) {
+                        // both readings fit the current offset; they always differ
+                        let base = c.unwrap_or(last_ok);
+                        let mut c2 = gen_hclock(rng, &ctl, base, offset);
+                        if c2 == c {
+                            c2 = Err(Error::Other(2));
+                            if c2 == c {
+                                c2 = Err(Error::Other(1));
+                            }
+                        }
+                        HOp::ClockOnce(c, c2)
+                    } else {
+                        HOp::Clock(c)
+                    }
+                }
                 45..=59 => {
                     // deltas for which now + delta fits (any i64 while the clock errors: the next clock
                     // reading is then chosen to fit the delta)
@@ -836,6 +1004,15 @@ fn hist_case<TG: TimeGetter<E>>(rep: &mut Report, case: u64, rng: &mut Rng, tg: 
                         last_ok = *t;
                     }
                     ctl.apply(c, rng.next_u64() as i64);
+                }
+                HOp::ClockOnce(c, c2) => {
+                    // the get() observed right below takes the first reading: it alone is "now"
+                    clock = *c;
+                    if let Ok(t) = c {
+                        last_ok = *t;
+                    }
+                    ctl.apply_once(c, c2, rng.next_u64() as i64);
+                    after_get = Some(*c2);
                 }
                 HOp::SetDelta(d) => {
                     if *d as i128 == offset {
@@ -958,6 +1135,14 @@ fn hist_case<TG: TimeGetter<E>>(rep: &mut Report, case: u64, rng: &mut Rng, tg: 
                     (Ok(None), Ok(None)) => {}
                     _ => rep.violation(&format!("C15/history/get-category/{}", cname), sub, case, format!("get()={:?}, expected {:?}; {}", got, exp, ctx())),
                 }
+            }
+        }
+        // a read-once clock has been read by that get(): from now on it gives its later reading
+        if let Some(c2) = after_get {
+            rep.tally("hist_get/read-once-clock");
+            clock = c2;
+            if let Ok(t) = c2 {
+                last_ok = t;
             }
         }
     }
@@ -1134,6 +1319,12 @@ fn main() {
         "seq_update/absent",
         "seq_update/getter-error",
         "seq_update/getter-error-FromNone",
+        "seq_read_once_polled/some-then-some",
+        "seq_read_once_polled/some-then-none",
+        "seq_read_once_polled/some-then-err",
+        "seq_read_once_polled/none-then-some",
+        "seq_read_once_polled/err-then-some",
+        "hist_get/read-once-clock",
         "seq_cg_update/getter-error-FromNone",
         "hist_get/outer-half-clock",
         "hist_get/outer-half-clock-with-same-sign-offset",
